@@ -319,6 +319,19 @@ fn check9(_ctx: &Ctx, c: &Case9, probe: &mut Probe) -> Check {
             probe.class("stale-failing-program");
             return Ok(());
         }
+        (PassOutcome::Ok(recs), _)
+            if recs.iter().filter(|r| r.head_key == fkey).any(|r| {
+                // the failing intent was admitted together with left-over budgeted work of the
+                // same head and lost the footprint conflict against it: a lawful rejection
+                // (a receipt, not a fault) - its program never ran, so nothing failed
+                let ws = w.frontier(fwl);
+                let (_, receipt, _) = &ws.tick_history()[(r.worldline_tick_after.as_u64() - 1) as usize];
+                receipt.entries().iter().any(|e| e.scope.local_id.0 == fenv.ingress_id() && matches!(e.disposition, warp_core::TickReceiptDisposition::Rejected(_)))
+            }) =>
+        {
+            probe.class("failing-intent-lawfully-rejected(conflict with left-over work of its head)");
+            return Ok(());
+        }
         (PassOutcome::Ok(recs), _) => {
             vfail!(format!("C09/failing-commit-reported-success/{:?}", c.kind), "pass with a failing head at position {pos} of {} returned Ok({} records)", order.len(), recs.len());
         }
